@@ -974,6 +974,7 @@ package xmpp
 //@ func (xmpp.WebsocketTransport).startReader$1(t)
 //@   requires t.wsConn != nil && t.closeCtx != nil
 //@   ensures [C05.ws.reader.nocancel] count(CtxCancelled) == old(count(CtxCancelled))
+//@   ensures [C05.ws.reader.signals,C12.ws.reader.signals] count(Select) > old(count(Select)) && count(WsMessage) > old(count(WsMessage)) && atlast(WsMessage) < atlast(Select) && (count(ReaderRead) > old(count(ReaderRead)) ==> atlast(ReaderRead) < atlast(Select))
 //@   at call Reader assert [C05.ws.reader.whole] msgDone()
 //@   emits WsFrame, WsMessage, ReaderRead, ChanSend, ChanSend_Slice
 //@   elems *
